@@ -134,7 +134,7 @@ let () =
          let decl = "<?xml version=\"1.0\" encoding=\"UTF-8\" ?>" in
          let doc = if isT then (if text = "" then decl ^ "<r />" else decl ^ "<r>" ^ enc ^ "</r>")
                    else (let q = if String.contains text '"' then "'" else "\"" in decl ^ "<r a=" ^ q ^ enc ^ q ^ " />") in
-         (* utf8 = true: the declaration's encoding="UTF-8" is picked up by TiXmlDocument::Parse (since /repo adf1b7a8; before that
+         (* utf8 = true: the declaration's encoding="UTF-8" is picked up by TiXmlDocument::Parse (since /repo e4a45618; before that
             fix a shadowed variable left the parser in the unknown-encoding mode: fixed finding xml_reference_above_127_truncated) *)
          let q = if String.contains text '"' then "'" else "\"" in
          let back = if isT then xml_read_text cw true (str_of_string (enc ^ "</r>"))
